@@ -652,6 +652,17 @@ impl<'template, 'env> BlockStack<'template, 'env> {
         self.depth = self.depth.checked_sub(1).unwrap()
     }
 
+    /// Moves the cursor back to the most derived definition and returns the
+    /// previous position for [`restore`](Self::restore).
+    pub fn rewind(&mut self) -> usize {
+        std::mem::replace(&mut self.depth, 0)
+    }
+
+    /// Restores a position returned by [`rewind`](Self::rewind).
+    pub fn restore(&mut self, depth: usize) {
+        self.depth = depth;
+    }
+
     pub fn append_instructions(&mut self, instructions: &'template Instructions<'env>) {
         self.instructions.push(instructions);
     }
